@@ -28,9 +28,21 @@ Proof. exact (include_cycles n fuel fs main). Qed.
 Print Assumptions C07_include_cycles.
 
 Theorem C07_include_inserted f fs l name inc r : include_name l = Some name -> fs name = Some inc ->
-  expand (S f) fs ((l, false) :: r) = (l, false) :: expand f fs (map (fun x => (x, true)) inc ++ r).
+  expand (S f) fs ((l, false) :: r) = (l, false) :: expand f fs (map (fun x => (x, true)) (until_end inc) ++ r).
 Proof. exact (include_inserted f fs l name inc r). Qed.
 Print Assumptions C07_include_inserted.
+
+Theorem C07_until_end_spec inc :
+  Forall (fun l => is_end_line l = false) (until_end inc) /\
+  (until_end inc = inc \/ exists e rest, inc = until_end inc ++ e :: rest /\ is_end_line e = true).
+Proof. exact (until_end_spec inc). Qed.
+Print Assumptions C07_until_end_spec.
+
+Theorem C07_until_end_example :
+  until_end [lit "DFIX 1.4 C1 O1"; lit "ENDS"; lit "end "; lit "C9 1 0 0 0"] = [lit "DFIX 1.4 C1 O1"; lit "ENDS"]
+  /\ is_end_line (lit "END") = true /\ is_end_line (lit "End") = true /\ is_end_line (lit " END") = false /\ is_end_line (lit "EN") = false.
+Proof. exact (until_end_example ). Qed.
+Print Assumptions C07_until_end_example.
 
 Theorem C07_passthrough_fixpoint items : Forall instr_tokens_ok items ->
   echo_file (map join_sp (lex (echo_file (map join_sp items)))) = echo_file (map join_sp items).
@@ -44,6 +56,24 @@ Print Assumptions C07_scaled_denote.
 Theorem C07_u_fixed_point u : length u = 6%nat -> u_written (u_read (u_written u)) = u_written u.
 Proof. exact (u_fixed_point u). Qed.
 Print Assumptions C07_u_fixed_point.
+
+Theorem C07_fvars_written_shape fv :
+  exists gs, fvars_written fv = map (fun g => lit "FVAR   " ++ join (lit "   ") g) gs
+             /\ concat gs = map fst (filter (fun x => negb (snd x)) fv)
+             /\ Forall (fun g => (1 <= length g <= 7)%nat) gs.
+Proof. exact (fvars_written_shape fv). Qed.
+Print Assumptions C07_fvars_written_shape.
+
+Theorem C07_fvars_written_ignores_included fv1 fv2 :
+  map fst (filter (fun x => negb (snd x)) fv1) = map fst (filter (fun x => negb (snd x)) fv2) -> fvars_written fv1 = fvars_written fv2.
+Proof. exact (fvars_written_ignores_included fv1 fv2). Qed.
+Print Assumptions C07_fvars_written_ignores_included.
+
+Theorem C07_fvars_written_example :
+  fvars_written [(lit "0.5", false); (lit "0.61", false); (lit "0.31", true); (lit "0.32", true); (lit "0.71", false)]
+  = [lit "FVAR   0.5   0.61   0.71"].
+Proof. exact (fvars_written_example ). Qed.
+Print Assumptions C07_fvars_written_example.
 
 Theorem C07_expand_example :
   let fs := fun n : str => if name_eqb n (lit "a.txt") then Some [lit "C9 1 0 0 0"; lit "+b.txt"; lit "SADI C9 C1"]
